@@ -948,6 +948,7 @@ type henv struct {
 	shares  []int64
 	total   int64
 	snapNow uint64
+	lastSnap uint64 // id of the last stored snapshot (= the current one)
 }
 
 func valAddr(i int) sdk.ValAddress {
@@ -1056,7 +1057,7 @@ func newEnvChains(t *testing.T, r *rand.Rand, live bool, two bool) *henv {
 	}
 	cur, err := f.ValsetKeeper.GetCurrentSnapshot(e.ctx)
 	must(err)
-	e.snapNow, e.total = cur.Id, cur.TotalShares.Int64()
+	e.snapNow, e.total, e.lastSnap = cur.Id, cur.TotalShares.Int64(), cur.Id
 	for _, v := range e.vals {
 		sv, ok := cur.GetValidator(v.addr)
 		if !ok {
@@ -1084,9 +1085,52 @@ func (e *henv) coqShares() string {
 // the snapshot the votes are weighed with must still be the one recorded at set-up (the model's is fixed per history)
 func (e *henv) checkSnapshot(t *testing.T) {
 	cur, err := e.f.ValsetKeeper.GetCurrentSnapshot(e.ctx)
-	if err != nil || cur.Id != e.snapNow {
-		t.Fatalf("the current snapshot changed during the history (%v)", err)
+	if err != nil || cur.Id != e.lastSnap || cur.TotalShares.Int64() != e.total {
+		t.Fatalf("the current snapshot changed behind the harness's back (%v)", err)
 	}
+	for i, v := range e.vals {
+		if sv, ok := cur.GetValidator(v.addr); !ok || sv.ShareCount.Int64() != e.shares[i] {
+			t.Fatalf("the shares of the current snapshot changed during the history")
+		}
+	}
+}
+
+// which stored snapshots list which chain (with repetitions), and the active compass of every chain: read from ALL stored
+// snapshots, not through GetLatestSnapshotOnChain
+func (e *henv) chainFacts(t *testing.T) (live, active [][2]int64) {
+	for id := uint64(1); id <= e.lastSnap; id++ {
+		sn, err := e.f.ValsetKeeper.FindSnapshotByID(e.ctx, id)
+		if err != nil || sn == nil {
+			continue
+		}
+		for _, c := range sn.Chains {
+			for ci, n := range e.chains {
+				if c == n {
+					live = append(live, [2]int64{int64(id), int64(ci)})
+				}
+			}
+		}
+	}
+	sort.Slice(live, func(i, j int) bool {
+		if live[i][0] != live[j][0] {
+			return live[i][0] < live[j][0]
+		}
+		return live[i][1] < live[j][1]
+	})
+	for ci, n := range e.chains {
+		if info, err := e.evm.GetChainInfo(e.ctx, n); err == nil && info.ActiveSmartContractID != 0 {
+			active = append(active, [2]int64{int64(ci), int64(info.ActiveSmartContractID)})
+		}
+	}
+	return live, active
+}
+
+func coqPairs(l [][2]int64) string {
+	s := make([]string, len(l))
+	for i, x := range l {
+		s[i] = emit.Pair(emit.ZI(x[0]), emit.ZI(x[1]))
+	}
+	return emit.List(s)
 }
 
 func (e *henv) q(t *testing.T) consensus.Queuer {
@@ -1171,7 +1215,7 @@ func (e *henv) facts(t *testing.T) []facts {
 func (e *henv) factsOf(t *testing.T, ci int) facts {
 	chain := e.chains[ci]
 	f := facts{snapOnChain: map[uint64]int{}, deploy: map[uint64]string{}, user: map[uint64]int{}}
-	for id := uint64(1); id <= e.snaps[len(e.snaps)-1]+3; id++ {
+	for id := uint64(1); id <= e.lastSnap; id++ {
 		if sn, err := e.f.ValsetKeeper.FindSnapshotByID(e.ctx, id); err == nil && sn != nil {
 			for _, c := range sn.Chains {
 				if c == chain {
@@ -1180,7 +1224,7 @@ func (e *henv) factsOf(t *testing.T, ci int) facts {
 			}
 		}
 	}
-	f.current = e.snaps[len(e.snaps)-1]
+	f.current = e.lastSnap
 	ds, err := e.evm.AllSmartContractsDeployments(e.ctx)
 	if err != nil {
 		t.Fatal(err)
@@ -1353,6 +1397,8 @@ type obsT struct {
 	relay     [][2]int64
 	effects   [][2]int64
 	urecs     []urecT
+	live      [][2]int64 // (snapshot id, chain) per listing
+	active    [][2]int64 // (chain, active compass contract id)
 }
 
 // urecT: one deployment record of a user contract: (contract id, chain, created, updated, status 0 in flight / 1 active / 2 error)
@@ -1407,7 +1453,7 @@ func (o obsT) coq() string {
 	for i, x := range o.effects {
 		ef[i] = emit.Pair(emit.ZI(x[0]), emit.ZI(x[1]))
 	}
-	return emit.Pair(emit.ZI(int64(o.res)), emit.List(q), emit.List(p), emit.List(rl), emit.List(ef), coqUrecs(o.urecs))
+	return emit.Pair(emit.ZI(int64(o.res)), emit.List(q), emit.List(p), emit.List(rl), emit.List(ef), coqUrecs(o.urecs), coqPairs(o.live), coqPairs(o.active))
 }
 
 func coqSpawn(bs []*bodyT, ok bool) string {
@@ -1431,6 +1477,7 @@ type history struct {
 	txs     []*txInfo
 	win     map[uint64]winInfo  // message id -> what 2/3 of the current snapshot's shares reported identically (the harness's own count)
 	reports map[uint64][]valReport // message id -> stored reports, in order of first submission
+	reporter map[uint64]int        // message id -> the validator whose public access data is stored with it
 	known   map[uint64]*bodyT   // bodies of queued messages as the model knows them
 	effects [][2]int64          // cumulative, from store diffs
 	usedTx  map[int64]uint64    // hash id -> message id it produced a follow-up / acceptance for
@@ -1483,6 +1530,7 @@ func (h *history) observe(res int) obsT {
 		return o.effects[i][1] < o.effects[j][1]
 	})
 	o.urecs = e.userRecords()
+	o.live, o.active = e.chainFacts(h.t)
 	return o
 }
 
@@ -1506,12 +1554,24 @@ func (h *history) syncHeight() {
 	if now := h.e.ctx.BlockHeight(); now != h.height || !h.started {
 		if !h.started {
 			h.started, h.last = true, h.observeBefore()
+			h.chainSync("set-up")
 		}
 		h.height = now
 		o := h.last
 		o.res = 0
 		h.steps = append(h.steps, emit.Pair(fmt.Sprintf("C07.XHeight %d", now), o.coq()))
 	}
+}
+
+// chainSync: the model is told which snapshots list which chain, the active compass per chain and the id of the current
+// snapshot as they ARE (set-up; snapshots built between two operations)
+func (h *history) chainSync(why string) {
+	o := h.last
+	o.res = 0
+	o.live, o.active = h.e.chainFacts(h.t)
+	h.last = o
+	h.logf("%s: live=%v active=%v current snapshot=%d", why, o.live, o.active, h.e.lastSnap)
+	h.steps = append(h.steps, emit.Pair(fmt.Sprintf("C07.XChainSync %s %s %d", coqPairs(o.live), coqPairs(o.active), h.e.lastSnap), o.coq()))
 }
 
 // the reading before the first operation: nothing queued, nothing processed, no records
@@ -1943,7 +2003,7 @@ func runHistory(t *testing.T, run *emit.Run, idx int) {
 	live := r.Intn(5) != 0
 	e := newEnv(t, r, live)
 	p := newPools(r)
-	h := &history{t: t, run: run, e: e, p: p, win: map[uint64]winInfo{}, reports: map[uint64][]valReport{}, known: map[uint64]*bodyT{}, usedTx: map[int64]uint64{}, done: map[uint64]bool{},
+	h := &history{t: t, run: run, e: e, p: p, win: map[uint64]winInfo{}, reports: map[uint64][]valReport{}, reporter: map[uint64]int{}, known: map[uint64]*bodyT{}, usedTx: map[int64]uint64{}, done: map[uint64]bool{},
 		vsid: map[uint64]uint64{}, gas: map[uint64]uint64{}, sigs: map[uint64][]sigE{}}
 	logf := func(f string, a ...any) { h.log = append(h.log, fmt.Sprintf(f, a...)) }
 	logf("env live=%v snapshots=%v", live, e.snaps)
@@ -2126,15 +2186,17 @@ func runHistory(t *testing.T, run *emit.Run, idx int) {
 			h.record(fmt.Sprintf("C07.XGas %d %d", m.id, g), 0)
 		case op < 54: // public access data names the valset the relayer used
 			m, _ := pick()
-			vid := []uint64{0, e.snaps[0], e.snaps[len(e.snaps)-1], 77}[r.Intn(4)]
-			err := e.f.ConsensusKeeper.SetMessagePublicAccessData(e.ctx, e.vals[0].addr, &consensustypes.MsgSetPublicAccessData{MessageID: m.id, QueueTypeName: e.queue, Data: []byte{1}, ValsetID: vid})
+			vid := []uint64{0, e.snaps[0], e.snaps[len(e.snaps)-1], e.snaps[len(e.snaps)-1], 77}[r.Intn(5)]
+			rep := r.Intn(len(e.vals)) // ANY validator may report the delivery, not only the one the message is assigned to
+			err := e.f.ConsensusKeeper.SetMessagePublicAccessData(e.ctx, e.vals[rep].addr, &consensustypes.MsgSetPublicAccessData{MessageID: m.id, QueueTypeName: e.queue, Data: []byte{1}, ValsetID: vid})
 			if err != nil {
 				continue
 			}
 			if _, set := h.vsid[m.id]; !set { // the first public access data stays
 				h.vsid[m.id] = vid
+				h.reporter[m.id] = rep
 			}
-			logf("public access id=%d valset=%d", m.id, vid)
+			logf("public access id=%d valset=%d reported by v%d", m.id, vid, rep)
 			run.Count("B.op", "valset")
 			h.record(fmt.Sprintf("C07.XValset %d %d", m.id, vid), 0)
 		case op < 57: // fees set after the estimate election: the body is replaced under the same id
@@ -2167,6 +2229,13 @@ func runHistory(t *testing.T, run *emit.Run, idx int) {
 			sigs := h.sigs[m.id]
 			// a transaction for this message: the right one (some admissible prefix), a corrupted one, one seen before, the right call in a fresh transaction
 			someTx := func() (*txInfo, string) {
+				if rep, ok := h.reporter[m.id]; ok && r.Intn(5) == 0 && !strings.EqualFold(e.vals[rep].eth.Hex(), b.Relayer) && b.Kind != kUploadCompass {
+					// the exact call of the message, except that it pays the validator that REPORTED the delivery instead of the assignee
+					c := b.correct(m.id, h.gas[m.id], vs, sigs, len(sigs))
+					c.Relayer = e.vals[rep].eth
+					nonce++
+					return h.addTx(c, nonce), "correct-but-relayer=reporter"
+				}
 				switch k := r.Intn(12); {
 				case k < 5:
 					i := len(sigs)
@@ -2358,8 +2427,14 @@ func (h *history) attestMsg(m qmsg) int {
 	was := w.kind == 1 && e.evm.VerifC07IsTxProcessed(e.ctx, w.tx.tx)
 	before, f0 := h.ids(), e.facts(t)
 	recs0 := e.userRecords()
+	live0, active0 := e.chainFacts(t)
 	cls, err := e.attestOne(t, e.ctx, m.id)
 	h.oracleRecords(recs0, e.userRecords(), []*bodyT{b}, []uint64{m.id})
+	{
+		live1, active1 := e.chainFacts(t)
+		good := cls == 0 && w.kind == 1 && w.status == 1 && !was && matches(b, m.id, h.gas[m.id], vs, h.sigs[m.id], w.tx.spec)
+		h.oracleChainFacts(m.id, b, good, live0, active0, live1, active1)
+	}
 	eff := diffFacts(f0, e.facts(t))
 	h.effects = append(h.effects, eff...)
 	sp := h.spawnedSince(before)
@@ -2427,11 +2502,13 @@ func (h *history) replaceBody(id uint64, b *bodyT) {
 func (h *history) publicAccess(id uint64, vid uint64) {
 	e := h.e
 	qn := e.queues[h.known[id].Chain]
-	if err := e.f.ConsensusKeeper.SetMessagePublicAccessData(e.ctx, e.vals[0].addr, &consensustypes.MsgSetPublicAccessData{MessageID: id, QueueTypeName: qn, Data: []byte{1}, ValsetID: vid}); err != nil {
+	rep := h.run.Rng.Intn(len(e.vals))
+	if err := e.f.ConsensusKeeper.SetMessagePublicAccessData(e.ctx, e.vals[rep].addr, &consensustypes.MsgSetPublicAccessData{MessageID: id, QueueTypeName: qn, Data: []byte{1}, ValsetID: vid}); err != nil {
 		h.t.Fatal(err)
 	}
 	if _, set := h.vsid[id]; !set {
 		h.vsid[id] = vid
+		h.reporter[id] = rep
 	}
 	h.logf("public access id=%d valset=%d", id, vid)
 	h.record(fmt.Sprintf("C07.XValset %d %d", id, vid), 0)
@@ -2479,7 +2556,7 @@ func (h *history) bumpHeight(d int64) {
 func newScenario(t *testing.T, run *emit.Run, live, two bool) (*history, []string, uint64) {
 	r := run.Rng
 	e := newEnvChains(t, r, live, two)
-	h := &history{t: t, run: run, e: e, p: newPools(r), win: map[uint64]winInfo{}, reports: map[uint64][]valReport{}, known: map[uint64]*bodyT{}, usedTx: map[int64]uint64{}, done: map[uint64]bool{},
+	h := &history{t: t, run: run, e: e, p: newPools(r), win: map[uint64]winInfo{}, reports: map[uint64][]valReport{}, reporter: map[uint64]int{}, known: map[uint64]*bodyT{}, usedTx: map[int64]uint64{}, done: map[uint64]bool{},
 		vsid: map[uint64]uint64{}, gas: map[uint64]uint64{}, sigs: map[uint64][]sigE{}}
 	var snaps []string
 	for _, id := range e.snaps {
@@ -2610,20 +2687,7 @@ func runSameTx(t *testing.T, run *emit.Run, variant int) {
 		b.Relayer = e.vals[0].eth.Hex()
 		return b
 	}
-	compassDeployment := func(code []byte, chains ...int) uint64 {
-		sc, err := e.evm.SaveNewSmartContract(e.ctx, compassABIJSON, code)
-		if err != nil {
-			t.Fatal(err)
-		}
-		for _, ci := range chains {
-			info, err := e.evm.GetChainInfo(e.ctx, e.chains[ci])
-			if err != nil {
-				t.Fatal(err)
-			}
-			e.evm.VerifC07CreateDeployment(e.ctx, sc, info, []byte(fmt.Sprintf("uid-%d", e.ctx.BlockHeight()))) // unique id = block height: the same on every chain
-		}
-		return sc.Id
-	}
+	compassDeployment := h.compassDeployment
 	name := ""
 	switch variant {
 	case 0: // compass handover, same forwarded calls / deadline; first a compass upload is accepted, so that a deployment waits for the handover
@@ -2735,7 +2799,155 @@ func runSameTx(t *testing.T, run *emit.Run, variant int) {
 		c3 = attest(id2)
 	}
 	run.Count("B.same-tx", fmt.Sprintf("%s first=%d same=%d own=%d", name, c1, c2, c3))
+	if variant == 0 || variant == 3 {
+		h.reporterPays(b1)
+	}
 	h.finish(snaps, n0)
+}
+
+// compassDeployment: governance rolls a compass contract out to the given chains (deployment records IN_FLIGHT)
+func (h *history) compassDeployment(code []byte, chains ...int) uint64 {
+	e := h.e
+	sc, err := e.evm.SaveNewSmartContract(e.ctx, compassABIJSON, code)
+	if err != nil {
+		h.t.Fatal(err)
+	}
+	for _, ci := range chains {
+		info, err := e.evm.GetChainInfo(e.ctx, e.chains[ci])
+		if err != nil {
+			h.t.Fatal(err)
+		}
+		e.evm.VerifC07CreateDeployment(e.ctx, sc, info, []byte(fmt.Sprintf("uid-%d", e.ctx.BlockHeight()))) // unique id = block height: the same on every chain
+	}
+	return sc.Id
+}
+
+// oracleChainFacts: a snapshot newly listed on a chain / a new active compass are the success effects of update_valset and of
+// the compass handover: they need THAT message's proving transaction.  The one exception is the compass upload that really is
+// the first deployment on a chain -- no stored snapshot lists the chain, by the harness's own scan of all snapshots.
+func (h *history) oracleChainFacts(id uint64, b *bodyT, good bool, live0, active0, live1, active1 [][2]int64) {
+	noLiveBefore := true
+	cnt := map[[2]int64]int{}
+	for _, x := range live0 {
+		cnt[x]--
+		if x[1] == int64(b.Chain) {
+			noLiveBefore = false
+		}
+	}
+	for _, x := range live1 {
+		cnt[x]++
+	}
+	replay := map[string]any{"part": "B", "seed": h.run.Seed, "history": append([]string{}, h.log...)}
+	for x, n := range cnt {
+		if n == 0 {
+			continue
+		}
+		ok := n == 1 && good && int64(b.Chain) == x[1] &&
+			((b.Kind == kUpdateValset && int64(b.Key) == x[0]) || (b.Kind == kUploadCompass && noLiveBefore && uint64(x[0]) == h.e.lastSnap))
+		if !ok {
+			h.run.Violate("C07:effects-without-proving-tx", fmt.Sprintf("attesting message %d (kind %d, key %d, chain %d, its own transaction accepted: %v): snapshot %d is now listed on chain %d (%+d) -- no update_valset for it was proved, and snapshots %v already listed a chain before",
+				id, b.Kind, b.Key, b.Chain, good, x[0], x[1], n, live0), replay)
+		}
+	}
+	act := func(l [][2]int64, ch int64) int64 {
+		for _, x := range l {
+			if x[0] == ch {
+				return x[1]
+			}
+		}
+		return 0
+	}
+	for ci := range h.e.chains {
+		a0, a1 := act(active0, int64(ci)), act(active1, int64(ci))
+		if a0 == a1 {
+			continue
+		}
+		ok := good && b.Chain == ci && int64(b.Key) == a1 && (b.Kind == kHandover || (b.Kind == kUploadCompass && noLiveBefore))
+		if !ok {
+			h.run.Violate("C07:effects-without-proving-tx", fmt.Sprintf("attesting message %d (kind %d, key %d, chain %d, its own transaction accepted: %v): the active compass of chain %d changed %d -> %d -- no compass handover was proved, and the chain was live before (listings %v)",
+				id, b.Kind, b.Key, b.Chain, good, ci, a0, a1, live0), replay)
+		}
+	}
+}
+
+// runUpgrade: a chain with an active compass whose live snapshot falls further and further behind (the validator set keeps
+// changing, no update_valset is proved for the chain), then a compass UPGRADE is rolled out and its deployment transaction
+// attested: the new compass must wait for its handover, and the current snapshot must not become live, however many
+// snapshots lie in between.  Control: a chain that really has no live snapshot (first deployment).
+func runUpgrade(t *testing.T, run *emit.Run) {
+	r := run.Rng
+	live := r.Intn(5) != 0
+	h, snaps, n0 := newScenario(t, run, live, false)
+	e := h.e
+	k := []int{0, 3, 126, 127, 128, 140}[r.Intn(6)]
+	for i := 0; i < k; i++ {
+		sn, err := e.f.ValsetKeeper.VerifCreateNewSnapshot(e.ctx)
+		if err != nil {
+			t.Fatal(err)
+		}
+		if err := e.f.ValsetKeeper.VerifSetSnapshotAsCurrent(e.ctx, sn); err != nil {
+			t.Fatal(err)
+		}
+		e.lastSnap = sn.Id
+	}
+	h.bumpHeight(int64(1 + k))
+	h.syncHeight()
+	if k > 0 {
+		h.chainSync(fmt.Sprintf("%d snapshots built, none published to the chain", k))
+	}
+	b := h.p.body(kUploadCompass)
+	b.Relayer = e.vals[0].eth.Hex()
+	b.Key = h.compassDeployment(b.Bytecode, 0)
+	id := h.put(b)
+	h.everybodyReports(id, h.rightTx(id, 0, 1), 1)
+	m, _ := h.msgByID(id)
+	cls := h.attestMsg(m)
+	_, act := e.chainFacts(t)
+	run.Count("B.upgrade", fmt.Sprintf("live=%v snapshots-behind=%d class=%d activated-at-once=%v", live, k, cls, len(act) > 0 && act[0][1] == int64(b.Key)))
+	// the scheduled handover (if any) gets its own transaction
+	for _, q := range e.queued(t) {
+		if q.body.Kind == kHandover && q.body.Key == b.Key {
+			h.publicAccess(q.id, e.snaps[0])
+			h.signBy(q.id, r.Intn(len(e.vals)))
+			h.everybodyReports(q.id, h.rightTx(q.id, 1, 2), 1)
+			mq, _ := h.msgByID(q.id)
+			h.attestMsg(mq)
+		}
+	}
+	h.finish(snaps, n0)
+}
+
+// reporterPays: ANY validator may report a delivery (SetPublicAccessData).  A message assigned to one validator, its delivery
+// reported by ANOTHER one (valid valset id), and evidence for a transaction that is the exact call of the message except that
+// it names the REPORTER's account as the relayer to be paid: not the call the message carries, must be refused.
+func (h *history) reporterPays(b0 *bodyT) int {
+	e, r := h.e, h.run.Rng
+	b := *b0
+	b.Relayer = e.vals[0].eth.Hex()
+	id := h.put(&b)
+	rep := 1 + r.Intn(len(e.vals)-1)
+	vid := e.snaps[r.Intn(len(e.snaps))]
+	qn := e.queues[b.Chain]
+	if err := e.f.ConsensusKeeper.SetMessagePublicAccessData(e.ctx, e.vals[rep].addr, &consensustypes.MsgSetPublicAccessData{MessageID: id, QueueTypeName: qn, Data: []byte{1}, ValsetID: vid}); err != nil {
+		h.t.Fatal(err)
+	}
+	h.vsid[id], h.reporter[id] = vid, rep
+	h.logf("public access id=%d valset=%d reported by v%d (assigned to v0)", id, vid, rep)
+	h.record(fmt.Sprintf("C07.XValset %d %d", id, vid), 0)
+	signers := r.Perm(len(e.vals))[:1+r.Intn(3)]
+	for _, k := range signers {
+		h.signBy(id, k)
+	}
+	vs, _ := e.snapVS(vid)
+	c := b.correct(id, h.gas[id], vs, h.sigs[id], 1+r.Intn(len(signers)))
+	c.Relayer = e.vals[rep].eth
+	x := h.addTx(c, 9)
+	h.logf("evidence id=%d: the message's call, but relayer = the reporter's account", id)
+	h.submit(id, h.txReport(x, h.receipt(x, &b, 1, rvPlain)), r.Perm(len(e.vals)))
+	m, _ := h.msgByID(id)
+	cls := h.attestMsg(m)
+	h.run.Count("B.reporter-pays", fmt.Sprintf("kind=%d class=%d", b.Kind, cls))
+	return cls
 }
 
 // endBlock: the attestation loop of the consensus end-blocker.  full=false calls the public
@@ -2971,7 +3183,7 @@ func runTwin(t *testing.T, run *emit.Run) {
 	r := run.Rng
 	e := newEnv(t, r, true)
 	p := newPools(r)
-	h := &history{t: t, run: run, e: e, p: p, win: map[uint64]winInfo{}, reports: map[uint64][]valReport{}, known: map[uint64]*bodyT{}, usedTx: map[int64]uint64{}, done: map[uint64]bool{},
+	h := &history{t: t, run: run, e: e, p: p, win: map[uint64]winInfo{}, reports: map[uint64][]valReport{}, reporter: map[uint64]int{}, known: map[uint64]*bodyT{}, usedTx: map[int64]uint64{}, done: map[uint64]bool{},
 		vsid: map[uint64]uint64{}, gas: map[uint64]uint64{}, sigs: map[uint64][]sigE{}}
 	logf := func(f string, a ...any) { h.log = append(h.log, fmt.Sprintf(f, a...)) }
 	var snaps []string
@@ -3091,6 +3303,9 @@ func runTwin(t *testing.T, run *emit.Run) {
 		c3 = attest(ids[1], false)
 	}
 	run.Count("B.twin", fmt.Sprintf("first=%d reuse=%d fresh=%d", c1, c2, c3))
+	if r.Intn(2) == 0 {
+		h.reporterPays(b)
+	}
 	run.Case(fmt.Sprintf("C07.CHistory %s %d %s %d %s", emit.List(snaps), n0, e.coqShares(), e.total, emit.List(h.steps)), true, map[string]any{"history": h.log})
 }
 
@@ -3127,6 +3342,12 @@ func TestCorr(t *testing.T) {
 			runUserTwice(t, run)
 		case 5:
 			runSameTx(t, run, (i/8)%5)
+		case 1:
+			if (i/8)%2 == 0 {
+				runUpgrade(t, run)
+			} else {
+				runHistory(t, run, i)
+			}
 		default:
 			runHistory(t, run, i)
 		}
